@@ -510,7 +510,7 @@ impl World {
     pub fn enabled(&self) -> Vec<(Ev, u32)> {
         let mut out: Vec<(Ev, u32)> = vec![];
         let def = self.default_event();
-        let mut push = |e: Ev, cost: u32, out: &mut Vec<(Ev, u32)>| {
+        let push = |e: Ev, cost: u32, out: &mut Vec<(Ev, u32)>| {
             let c = if Some(&e) == def.as_ref() { 0 } else { cost };
             if !out.iter().any(|(x, _)| *x == e) {
                 out.push((e, c));
